@@ -141,10 +141,15 @@ pub enum Site {
     /// right-hand side; `Flip` makes the bind drop it -- in the same stabilise in which it
     /// wrote, if `Trigger` was issued too
     Dropped,
+    /// `map` writer at height 2 (as `MapFn`); above it a bind `writer.bind(|x| if x is odd { T.map(reader "late") } else
+    /// { constant })`, observed from the start: with the readers `low` / `high` unobserved, `T` is *unwatched* when the
+    /// writer writes it and becomes watched later in the same stabilise, by a reader that runs in that stabilise and
+    /// must still see the pre-stabilise value (after seed C08-f)
+    LateReader,
 }
 
 impl Site {
-    pub const ALL: [Site; 7] = [Site::Outside, Site::MapFn, Site::BindFn, Site::Handler, Site::MapAndHandler, Site::SelfFeed, Site::Dropped];
+    pub const ALL: [Site; 8] = [Site::Outside, Site::MapFn, Site::BindFn, Site::Handler, Site::MapAndHandler, Site::SelfFeed, Site::Dropped, Site::LateReader];
     pub fn name(self) -> &'static str {
         match self {
             Site::Outside => "outside",
@@ -154,6 +159,7 @@ impl Site {
             Site::MapAndHandler => "map_and_handler",
             Site::SelfFeed => "self_feed",
             Site::Dropped => "dropped",
+            Site::LateReader => "late_reader",
         }
     }
     pub fn parse(s: &str) -> Option<Site> {
@@ -351,6 +357,22 @@ impl VarsWorld {
                 self.keep.push(Box::new(o_w));
                 t.map2(&w, reader2("high", &log))
             }
+            Site::LateReader => {
+                let tw = t.clone();
+                let lg = log.clone();
+                let sc = script.clone();
+                let w = g1.map(move |x| {
+                    run_script(&tw, &sc, false, &lg);
+                    *x
+                });
+                let t_incr = t.watch();
+                let konst = state.constant(-1i32);
+                let lg2 = log.clone();
+                let b = w.bind(move |x: &i32| if *x % 2 == 1 { t_incr.map(reader("late", &lg2)) } else { konst.clone() });
+                let o_b = b.observe();
+                self.keep.push(Box::new(o_b));
+                t.map2(&w, reader2("high", &log))
+            }
             Site::Dropped => {
                 let s = state.var(0i32);
                 let s2 = s.map(|x| *x).map(|x| *x);
@@ -396,7 +418,8 @@ impl VarsWorld {
 
     /// is T's watch node necessary (transitively observed)?
     fn t_necessary(&self) -> bool {
-        self.model.observed || self.prog.site == Site::SelfFeed
+        // LateReader: after a round the bind above the writer holds a reader of T iff the trigger variable is odd
+        self.model.observed || self.prog.site == Site::SelfFeed || (self.prog.site == Site::LateReader && self.model.g % 2 == 1)
     }
 
     fn panic_violation(&mut self, what: &str, p: &PanicInfo, vs: &mut Vec<Violation>) {
@@ -999,6 +1022,7 @@ pub fn family(name: &str) -> Vec<Prog> {
         "c08/handler" => vec![Site::Handler, Site::MapAndHandler],
         "c08/selffeed" => vec![Site::SelfFeed],
         "c08/dropped" => vec![Site::Dropped],
+        "c08/late" => vec![Site::LateReader],
         _ => return vec![],
     };
     let mut out = vec![];
